@@ -93,6 +93,101 @@ def scenario(ctx, job):
     ctx.sample({'scenario': 'pipeline', 'paths': len(res)})
 
 
+# ---------------------------------------------------------------- migration task layer (dispatch only)
+class TaskStub(PyObj):
+    """stands in for RedisScanMigratingTask / RedisScanImportingTask (async scan machinery: C03): records what it is asked"""
+    def __init__(self, kind, slot_range, meta): self.kind = kind; self.slot_range = slot_range; self.meta = meta; self.got = []
+    def m_contains_slot(self, e, s, slot):
+        rl = un(self.slot_range).f[0].v
+        return e.run_func(e.find_fn('RangeList', 'contains_slot'), [Ref(Cell(un(rl))), slot]) if False else \
+            zor([zand([z3.ULE(bv(un(c.v).f[0].v), bv(slot)), z3.ULE(bv(slot), bv(un(c.v).f[1].v))]) for c in deref_vec(un(rl).f[0].v).cells])
+    def m_send(self, e, s, task): self.got.append(un(task)); un(task).sent_to = 'task:%s' % self.kind; return Ok(mk_unit())
+    def m_get_state(self, e, s): return Enum('MigrationState', 0)
+    def m_get_stop_handle(self, e, s): return NONE()
+    def m_start(self, e, s): return Opaque('future')
+
+
+def install_task_stubs(e, created):
+    import re
+    def mk(kind, sr_idx, meta_idx):
+        def f(e, args):
+            t = TaskStub(kind, args[sr_idx], args[meta_idx]); created.append(t); return t
+        return f
+    e.fn_stubs = []          # per path: the stubs close over this path's `created` list
+    # RedisScanMigratingTask::new(config, mgr_config, cluster_name, slot_range, meta, client_factory, ctrl, stats)
+    # RedisScanImportingTask::new(config, mgr_config, meta, slot_range, client_factory, sender_factory, dst.., proxy.., cmd_task_factory, stats)
+    def dispatch(e, args):
+        if len(args) == 8: return mk('migrating', 3, 4)(e, args)
+        if len(args) == 10: return mk('importing', 3, 2)(e, args)
+        raise Unmodelled('unexpected scan task constructor arity %d' % len(args))
+    names = [n for n in e.mir.funcs if re.search(r'scan_task::<impl at [^>]*>::new$', n)]
+    for n in names:
+        e.fn_stubs.append((re.compile(re.escape(n) + '$'), dispatch, 'RedisScan{Migrating,Importing}Task::new'))
+
+
+class CtrlFactory(PyObj):
+    def m_create(self, e, s, addr): return Opaque('BlockingController')
+
+
+def migration_layer(ctx, job):
+    """metadata installs over time: the live task set follows the migration tags, a task whose tag is unchanged is
+    carried over (not restarted, not forgotten), and a command for a slot of a tagged range reaches that task"""
+    def run(e):
+        created = []
+        install_task_stubs(e, created)
+        a = z3.BitVec('a', 64); b_ = z3.BitVec('b', 64); c = z3.BitVec('c', 64)
+        e.assume(zand([z3.ULT(a, b_), z3.ULT(b_, c), z3.ULT(c, SLOT_NUM - 1)]))
+        metaA = {'epoch': z3.BitVec('mepoch', 64), 'src_proxy': 'p1:5299', 'src_node': 'n1:6000', 'dst_proxy': 'p2:5299', 'dst_node': 'n2:6000'}
+        metaB = dict(metaA, dst_proxy='p3:5299', dst_node='n3:6000')
+        kind = job['side']       # this proxy is source ('Migrating') or destination ('Importing')
+        def local(tags):
+            srs = [slot_range(e, [(0, a)])] if kind == 'Migrating' else []
+            if 'A' in tags: srs.append(slot_range(e, [(a + 1, b_)], (kind, metaA)))
+            if 'B' in tags: srs.append(slot_range(e, [(b_ + 1, c)], (kind, metaB)))
+            return node_map(e, {'n1:6000' if kind == 'Migrating' else 'n2:6000': srs})
+        mm = e.run_func(e.find_fn('MigrationMap', 'empty'), [])
+        hist = job['history']           # e.g. ['AB', 'B', 'B', '']: tags present in successive metadata installs
+        s = z3.BitVec('slot', 64); e.assume(z3.ULT(s, SLOT_NUM))
+        items = []
+        alive = {}
+        for step, tags in enumerate(hist):
+            n_before = len(created)
+            e.generic_env.update({'T': 'MockTask'})
+            r = e.run_func(e.find_fn('MigrationMap', 'update_from_old_task_map'),
+                           [Ref(Cell(mm)), cname(e, 'mydb'), Ref(Cell(local(tags))), Ref(Cell(e.default_value('ClusterConfig'))),
+                            Ref(Cell(Opaque('ServerProxyConfig')), 'Arc'), Ref(Cell(Opaque('AtomicMigrationConfig')), 'Arc'), Ref(Cell(Opaque('cf')), 'Arc'),
+                            Ref(Cell(Opaque('sf')), 'Arc'), Ref(Cell(Opaque('dsf')), 'Arc'), Ref(Cell(Opaque('psf')), 'Arc'), Ref(Cell(Opaque('ctf')), 'Arc'),
+                            Ref(Cell(CtrlFactory()), 'Arc'), Ref(Cell(Opaque('stats')), 'Arc')])
+            mm = un(r).f[0].v
+            new = created[n_before:]
+            def wit(m, step=step, tags=tags): return {'side': kind, 'history': hist, 'step': step, 'a': concretize(a, m), 'b': concretize(b_, m), 'c': concretize(c, m), 'slot': concretize(s, m),
+                                                      'tasks_created_at_this_step': len(new)}
+            # exactly the tags that were not live before get a new task
+            want_new = [t for t in tags if t not in alive]
+            items.append(('new-task-per-new-migration', 'C02/migration-task-set-differs-from-tags', len(new) == len(want_new), wit))
+            for t in list(alive):
+                if t not in tags: del alive[t]
+            for t, obj in zip(want_new, new): alive[t] = obj
+            # dispatch of a data command
+            task = MockTask(s)
+            res = e.run_func(e.find_fn('MigrationMap', 'send'), [Ref(Cell(mm)), task])
+            inA = zand([z3.UGT(s, a), z3.ULE(s, b_)]); inB = zand([z3.UGT(s, b_), z3.ULE(s, c)])
+            want = zor(([inA] if 'A' in tags else []) + ([inB] if 'B' in tags else []))
+            got_task = task.sent_to is not None
+            items.append(('slot-of-live-migration-reaches-its-task', 'C02/migrating-slot-bypasses-migration-task', zbool(want) == got_task, wit))
+            if got_task:
+                owner = [t for t, obj in alive.items() if task in obj.got or any(x is task for x in obj.got)]
+                exp = zor(([zand([inA, owner == ['A']])] if 'A' in tags else []) + ([zand([inB, owner == ['B']])] if 'B' in tags else []))
+                items.append(('command-reaches-the-task-of-its-range', 'C02/command-dispatched-to-wrong-migration-task', exp, wit))
+        ctx.require_all(e, items)
+        return len(hist)
+    res = ctx.explore('migration task layer %s %s' % (job['side'], job['history']), run)
+    ctx.ops += sum(p.value or 0 for p in res if p.kind == 'ok')
+
+
+HISTORIES = [['A'], ['A', 'A'], ['A', 'A', ''], ['AB', 'B', 'B'], ['A', 'AB', 'B', ''], ['', 'A', 'A']]
+
+
 def run(ctx):
     quick = ctx.tier == 'quick'
     jobs = [{'chunks': 1}, {'chunks': 1, 'roles': True}, {'chunks': 1, 'migrate': True, 'extra': 1}, {'chunks': 2}]
@@ -100,6 +195,16 @@ def run(ctx):
         jobs += [{'chunks': 2, 'roles': True}, {'chunks': 1, 'migrate': True, 'extra': 1, 'roles': True}, {'chunks': 1, 'migrate': True, 'extra': 1, 'limit': 1}, {'chunks': 2, 'migrate': True, 'extra': 1}]
     ctx.bounds = {'clusters': '1-2 chunks (+1 during a scale-out migration)', 'slot': 'symbolic over all 16384', 'role positions': 'enumerated', 'encoding': 'plain UMCTL SETCLUSTER arguments'}
     ctx.assumptions += ['range boundaries are the concrete balanced ones the broker produces (the proxy slot table cannot be built with symbolic bounds)',
-                        'data commands are dispatched by ClusterBackendMap::send; the migration task layer in front of it (MigrationMap::send) is C03 territory']
+                        'pipeline scenarios: data commands are dispatched by ClusterBackendMap::send']
     ctx.not_explored += ['the <= 3 redirections bound while a migration task is live', 'the compressed encoding', 'delivery of the metadata (C07)']
-    ctx.run_parallel(jobs, lambda c, j: scenario(c, j))
+    for side in ('Migrating', 'Importing'):
+        for h in (HISTORIES[:4] if quick else HISTORIES):
+            jobs.append({'kind': 'mgr', 'side': side, 'history': h})
+    ctx.bounds['migration task layer'] = 'metadata install histories of <= 4 steps over two migrations (symbolic range boundaries), source and destination side, symbolic slot'
+    ctx.assumptions.append('migration task layer: RedisScanMigratingTask / RedisScanImportingTask constructors are stand-ins (stub:*); only creation / carry-over / dispatch by MigrationMap is decided, not what the tasks do (C03)')
+    ctx.run_parallel(jobs, worker)
+
+
+def worker(c, j):
+    if j.get('kind') == 'mgr': migration_layer(c, j)
+    else: scenario(c, j)
